@@ -233,6 +233,8 @@ func (rs *respSummary) errFromResponder(et *Term) bool {
 }
 
 func runC11(c *Ctx) {
+	c.Rule("R10", "no method re-acquires its receiver's lock through another method of the same receiver (a queued writer between the two read locks wedges every request)", 1)
+	reentrantLocks(c, "R10", []string{"balloon", "balloon/hyper", "balloon/history", "balloon/cache", "consensus", "gossip", "client", "server"})
 	p := c.P
 	c.Rule("R1", "every path of every registered handler writes a response", 10)
 	c.Rule("R2", "undecodable body ⇒ 4xx; method check precedes the decode", 5)
